@@ -11,23 +11,23 @@ CLAIMED = {
 }
 
 CLAIMED["C04"] = dict(
-   text="Bounded model checking of the real RollCommon / RollCoC / RollFate SSA with every die a symbolic value (Roll replaced by the contract C05 establishes): for all sides, keep/drop counts, min/max clamps (64-bit symbols) and all dice outcomes, the dice shown in the detail text are exactly the rolled (clamped) dice, the kept count follows the rule, kept dice are the extreme ones and the total is the sum of the kept dice; CoC result equals the best/worst candidate of the shown digits. The detail text is handled as a symbolic rope and parsed by the oracle. Through the VM syntax (VH_C04_vm): programs of two or three dice terms (14 x 6 term pairs in four arrangements) with every die symbolic: each term's value, the dice its annotation lists and the result are what the rule computes from that term's own dice and its own keep / drop / min / max parameters.",
+   text="Bounded model checking of the real RollCommon / RollCoC / RollFate SSA with every die a symbolic value (Roll replaced by the contract C05 establishes): for all sides, keep/drop counts, min/max clamps (64-bit symbols) and all dice outcomes, the dice shown in the detail text are exactly the rolled (clamped) dice, the kept count follows the rule, kept dice are the extreme ones and the total is the sum of the kept dice; CoC result equals the best/worst candidate of the shown digits. The detail text is handled as a symbolic rope and parsed by the oracle. Through the VM syntax (VH_C04_vm): programs of two or three dice terms (14 x 6 term pairs in four arrangements) with every die symbolic: each term's value, the dice its annotation lists and the result are what the rule computes from that term's own dice and its own keep / drop / min / max parameters. VH_C04_realroll: RollCommon through the real sampler (no summary) with a symbolic side count in [1, 2^60]: every die shown and the total lie in the face range.",
    note="times <= 3 (quick) / 4 (thorough), CoC extra dice <= 2/3, magnitudes <= 2^40 so the true sum cannot overflow, min<=max when both given. VM-level parameter validation (VH_C04_params): 15 dice forms with parameters over {64-bit symbol, float, string, null}; legal-accept side limited to values <= 1000. WoD and Double Cross round loops (VH_C04_wod, VH_C04_dc): pool <= 3 (quick) / 4 (thorough), at most 6 / 9 dice over all rounds (longer explosions outside the claim), sides / threshold / add-line symbolic; Double Cross result claimed only for critical line <= 11 or above the sides. Trusted: Roll contract (C05), gosymx rope model of fmt/strconv, solvers.",
    technique="symbolic execution of go/ssa + SMT (wrapped-Int LIA), function summary for Roll",
    ref="DESIGN.md §5 C04")
 CLAIMED["C15"] = dict(
-   text="Bounded model checking (2-safety style): RollCommon, RollCoC and RollFate are executed under modes -1, 0, +1 with identical symbolic parameters; for all parameter values and all dice outcomes min <= random <= max is discharged by SMT, the XdY bounds are shown to be attained by all-lowest / all-highest faces, and modes +-1 are shown to consume no generator output. Through the VM (VH_C15_vm): 19 programs monotone in their dice with the dice at top level, inside (nested) functions, computed values, a loop, a conditional and the default-sides expression (also one that depends on a variable changed between two bare dice): min/max runs consume no generator output, leave the generator state unchanged and give the expected attained bounds; the random run with symbolic dice is bracketed (SMT).",
+   text="Bounded model checking (2-safety style): RollCommon, RollCoC and RollFate are executed under modes -1, 0, +1 with identical symbolic parameters; for all parameter values and all dice outcomes min <= random <= max is discharged by SMT, the XdY bounds are shown to be attained by all-lowest / all-highest faces, and modes +-1 are shown to consume no generator output. Through the VM (VH_C15_vm, mode set before Run or between Parse and RunAfterParsed): 19 programs monotone in their dice with the dice at top level, inside (nested) functions, computed values, a loop, a conditional and the default-sides expression (also one that depends on a variable changed between two bare dice): min/max runs consume no generator output, leave the generator state unchanged and give the expected attained bounds; the random run with symbolic dice is bracketed (SMT).",
    note="Same bounds as C04. Known finding recorded: CoC penalty dice in min-mode are not a lower bound (known_findings.json). VM-level programs are enumerated (19).",
    technique="symbolic execution of go/ssa + SMT, three-run relational harness",
    ref="DESIGN.md §5 C15")
 
 CLAIMED["C01"] = dict(
-   text="Bounded model checking of panic freedom through the public API: for each of ~130 program templates (one per opcode, builtin and method, 1-3 operands) the real parser and VM are executed symbolically with the operands ranging over every script value kind and 64-bit / Float64 payloads as solver symbols; every Go panic site (type assertion, index, slice bounds, nil dereference, division, make) on every feasible path is a verification condition, observers (ToString, ToRepr, detail text twice, bytecode listing, Matched/RestInput) included; capacity boundaries (nesting 19..22, 511..513 elements, code cap, parse budget, recursion under an op budget, and endless recursion through code compiled on demand - default-sides expressions, host-built function / computed values, RunExpr - which must end with the budget error within 4000 Go frames) as concrete programs; histories on one VM (a program that records process-text spans, then a failing / shorter / longer text, thorough: then a third) with all observers after every step; and every source text of 2 (quick) / 3 (thorough) bytes over all 256 byte values, run twice and observed under 4 configurations. A panic is reported only after native replay of the solver's model.",
+   text="Bounded model checking of panic freedom through the public API: for each of ~130 program templates (one per opcode, builtin and method, 1-3 operands) the real parser and VM are executed symbolically with the operands ranging over every script value kind and 64-bit / Float64 payloads as solver symbols; every Go panic site (type assertion, index, slice bounds, nil dereference, division, make) on every feasible path is a verification condition, observers (ToString, ToRepr, detail text twice, bytecode listing, Matched/RestInput) included; capacity boundaries (nesting 19..22, 511..513 elements, code cap, parse budget, recursion under an op budget, and endless recursion through code compiled on demand - default-sides expressions, host-built function / computed values, RunExpr - which must end with the budget error within 4000 Go frames) as concrete programs; self-referential values (9 constructions x 36 operations, hang and stack depth count); histories on one VM (a program that records process-text spans, then a failing / shorter / longer text through Run or through Parse + RunAfterParsed, thorough: then a third) with all observers after every step; every 3 / 4 byte text over a bracket / newline alphabet with the real error formatter; and every source text of 2 (quick) / 3 (thorough) bytes over all 256 byte values, run twice and observed under 4 configurations. A panic is reported only after native replay of the solver's model.",
    note="Quick: scalar operand kinds, no prior-state run; thorough: containers/computed/function operands (depth 1, <=2 elements) and a second Run on the same VM. Loops with symbolic trip count unrolled 3 times, symbolic-size allocations followed to 8 elements (cuts counted in evidence). Source text is concrete per template; symbolic source text is 2 / 3 arbitrary bytes here (VH_C01_src) and up to 5 bytes over restricted alphabets in the C03/C08/C13/C16/C19 harnesses (a panic found there is reported under that property). Dice are Roll-contract values (C05). Float text rendering is opaque. Hangs are reported as step-limit aborts (reduced), not as violations.",
    technique="symbolic execution of go/ssa (parser + VM) + SMT panic-site VCs",
    ref="DESIGN.md §5 C01")
 CLAIMED["C06"] = dict(
-   text="(1) Provenance as a footprint claim: 40 programs covering every dice family, the random array methods and every calling context (function, computed value, template hole, container, condition, loop, default-sides expression) run on a seeded VM with the generator stubbed; on every path every generator output is logged with its receiver and must come from the context's generator, none from the package generator. (2) For all 128-bit generator states (two 64-bit symbols) GetCurSeed / Seed / Init round-trip the state exactly (x/exp/rand's Marshal/UnmarshalBinary interpreted). (3) Result and process text are compared under two opposite Go-map iteration orders. (4) The real sampler with a symbolic side count: every draw of a die, including re-draws after any number of rejections, is taken from the generator passed in.",
+   text="(1) Provenance as a footprint claim: 40 programs covering every dice family, the random array methods and every calling context (function, computed value, template hole, container, condition, loop, default-sides expression) run on a seeded VM with the generator stubbed; on every path every generator output is logged with its receiver and must come from the context's generator, none from the package generator. (2) For all 128-bit generator states (two 64-bit symbols) GetCurSeed / Seed / Init round-trip the state exactly (x/exp/rand's Marshal/UnmarshalBinary interpreted), and re-seeding a context from equal bytes after its generator moved rewinds it. (3) Result and process text are compared under two opposite Go-map iteration orders. (4) The real sampler with a symbolic side count: every draw of a die, including re-draws after any number of rejections, is taken from the generator passed in.",
    note="PCG's step function is not encoded (equal states give equal futures because Uint64 is a function of the state). Dice values are fixed low faces in (1): provenance does not depend on values. Known findings recorded: dict enumeration / printing order follows Go map order.",
    technique="symbolic execution of go/ssa + SMT; draw-receiver footprint; map-order relational run",
    ref="DESIGN.md §5 C06")
@@ -38,36 +38,36 @@ CLAIMED["C12"] = dict(
    ref="DESIGN.md §5 C12")
 
 CLAIMED["C16"] = dict(
-   text="Bounded model checking over symbolic source text: every input of n bytes (quick: 2 bytes over all of ASCII and 3 bytes over the dice alphabet; thorough: 3 / 4) runs through the real PEG engine with the configuration flags as symbolic booleans; for each accepted path the compiled bytecode (including nested function / computed bodies) is inspected and 'a family / statement / operator opcode is present' implies 'its flag admits it' is a verification condition decided by SMT for all flag values. Macro harness: #EnableDice macros in every position with symbolic initial flags leave Config unchanged and do not leak into the next evaluation, whether that is parsed at top level, compiled on demand through RunExpr directly after the macro run, or a bare d using one of 6 default-sides expressions (compared with a VM of the same configuration that never saw a macro). st harness: parenthesised values in 8 positions of ^st commands (where the grammar pushes and pops the parser's copy of the flags) holding 14 gated constructs or 2 / 3 symbolic bytes, flags symbolic.",
+   text="Bounded model checking over symbolic source text: every input of n bytes (quick: 2 bytes over all of ASCII and 3 bytes over the dice alphabet; thorough: 3 / 4) runs through the real PEG engine with the configuration flags as symbolic booleans; for each accepted path the compiled bytecode (including nested function / computed bodies) is inspected and 'a family / statement / operator opcode is present' implies 'its flag admits it' is a verification condition decided by SMT for all flag values. Macro harness: #EnableDice macros in every position with symbolic initial flags leave Config unchanged and do not leak into the next evaluation, whether that is parsed at top level, compiled on demand through RunExpr directly after the macro run, or a bare d using one of 6 default-sides expressions (compared with a VM of the same configuration that never saw a macro). Re-parse harness: 11 texts parsed with everything enabled and parsed again, byte-identical, on the same VM after all seven flags became symbolic booleans: the second compilation obeys the new flags. st harness: parenthesised values in 8 positions of ^st commands (where the grammar pushes and pops the parser's copy of the flags) holding 14 gated constructs or 2 / 3 symbolic bytes, flags symbolic.",
    note="Inputs longer than n bytes are outside the claim (the 20-byte macro cannot occur in them, so 'lacking an enabling macro' holds trivially; macros are covered by the concrete macro programs). Flags are symbolic in two groups (Enable* or Disable*), not all seven at once. Syntax-error formatting is stubbed in the gate harnesses (covered by C19).",
    technique="symbolic execution of the PEG parser on symbolic bytes + SMT over flag booleans",
    ref="DESIGN.md §5 C16")
 
 CLAIMED["C19"] = dict(
-   text="Bounded model checking over symbolic source text: every input of n bytes (4 quick / 5 thorough) over an alphabet with newlines, quotes, operators and two multi-byte runes runs through the real parser; on every rejecting path the reported offset lies in the input and (line, column) equal the oracle's line/column of that offset (runes as Go decodes them). fmtErr is executed on symbolic input bytes with symbolic line/column and the three language settings: header and position lines are in the configured language only, the quoted line is the reported line, the caret has column-1 spaces before it. Long lines (56..70 bytes) with a symbolic column: caret within the quoted text. Cross-VM (VH_C19_cross): two VMs with different language settings used in turn (A, B, A) on 4 / 6 ill-formed sources met as the program, as an on-demand expression (RunExpr) or as the default-sides expression: every message is in the producing VM's language only. Custom dice (VH_C19_custom): 12 texts in which a registered regex / stream syntax consumes multi-byte or multi-line text before the error: offset, line and column by the same oracle.",
+   text="Bounded model checking over symbolic source text: every input of n bytes (4 quick / 5 thorough) over an alphabet with newlines, quotes, operators and two multi-byte runes runs through the real parser; on every rejecting path the reported offset lies in the input and (line, column) equal the oracle's line/column of that offset (runes as Go decodes them). fmtErr is executed on symbolic input bytes with symbolic line/column and the three language settings: header and position lines are in the configured language only, the quoted line is the reported line, the caret has column-1 spaces before it. Long lines (56..70 bytes) with a symbolic column: caret within the quoted text. Cross-VM (VH_C19_cross): two VMs with different language settings used in turn (A, B, A) on 4 / 6 ill-formed sources met as the program, as an on-demand expression (RunExpr) or as the default-sides expression: every message is in the producing VM's language only and an error value kept by the host reads the same afterwards. Custom dice (VH_C19_custom): 12 texts in which a registered regex / stream syntax consumes multi-byte or multi-line text before the error: offset, line and column by the same oracle.",
    note="Cross-VM independence of the language choice under concurrency is a shared-state question decided by C11's footprint check; the sequential part is VH_C19_cross here. Inputs longer than n bytes are outside the claim. Known findings recorded: an error at a newline byte is reported as (next line, column 0); the caret is not moved when a long line is truncated.",
    technique="symbolic execution of the PEG parser and error formatter on symbolic bytes + SMT",
    ref="DESIGN.md §5 C19")
 
 CLAIMED["C08"] = dict(
-   text="Bounded model checking over symbolic source text: every accepted input of n bytes (3 quick / 4 thorough) over a punctuation-rich alphabet, plus 44 programs composing every control construct, is compiled by the real parser; the emitted bytecode and every nested function / computed body is then explored along ALL control-flow paths (both outcomes of every conditional jump) by an abstract stack-height machine that checks operand types (unpatched jumps), jump targets, stack underflow, equal numbers of open blocks at every arrival, and that annotation / dice state is set up before use. For the programs the loops are recovered from the backward jumps and the number of jumps to the instruction after a loop's end / back to a loop's head must equal the number of break / continue statements written (an unpatched break is a well-typed jump to the next instruction).",
+   text="Bounded model checking over symbolic source text: every accepted input of n bytes (3 quick / 4 thorough) over a punctuation-rich alphabet, plus 48 programs composing every control construct, is compiled by the real parser; the emitted bytecode and every nested function / computed body is then explored along ALL control-flow paths (both outcomes of every conditional jump) by an abstract stack-height machine that checks operand types (unpatched jumps), jump targets, stack underflow, equal numbers of open blocks at every arrival, and that annotation / dice state is set up before use. For the programs the loops are recovered from the backward jumps and the number of jumps to the instruction after a loop's end / back to a loop's head must equal the number of break / continue statements written (an unpatched break is a well-typed jump to the next instruction).",
    note="The oracle is a bytecode verifier written from the VM's dispatch loop (stack effect per opcode); the real dispatch loop itself is exercised by the C01 harnesses. Inputs longer than n bytes outside the corpus are not covered. Known findings recorded: je.dup left unpatched after an abandoned '||' alternative; continue/break inside if leak a block slot.",
    technique="symbolic execution of the PEG parser on symbolic bytes + abstract interpretation of the emitted bytecode",
    ref="DESIGN.md §5 C08")
 CLAIMED["C13"] = dict(
-   text="Bounded model checking over symbolic text: texts of n code points (3 quick / 4 thorough) over an alphabet of all four delimiters, backslash, braces, percent, control characters and multi-byte runes are escaped by the documented rules and run through the real parser and VM in the four quote styles; 'the literal evaluates to exactly the text' is a byte-wise SMT verification condition. Templates with two holes (8 kinds of embedded code) and symbolic literal segments: value is the in-order concatenation, embedded assignments take effect, one value is left on the stack; nesting depth 1..21. Holes over variables (array, dict, string, symbolic integers), all pairs / triples incl. the same container shown twice: the value is the concatenation of the segments and each hole's string form as evaluated alone.",
+   text="Bounded model checking over symbolic text: texts of n code points (3 quick / 4 thorough) over an alphabet of all four delimiters, backslash, braces, percent, control characters and multi-byte runes are escaped by the documented rules and run through the real parser and VM in the four quote styles; 'the literal evaluates to exactly the text' is a byte-wise SMT verification condition. Templates with two holes (8 kinds of embedded code) and symbolic literal segments: value is the in-order concatenation, embedded assignments take effect, one value is left on the stack; nesting depth 1..21, also with a statement block assigning a variable at every level (text, every variable, no other). Holes over variables (array, dict, string, symbolic integers), all pairs / triples incl. the same container shown twice: the value is the concatenation of the segments and each hole's string form as evaluated alone.",
    note="The template delimiter itself cannot be written inside its own template style (no escape exists) and is excluded there. An if-block hole contributes no text (pinned by the test suite).",
    technique="symbolic execution of parser + VM on symbolic bytes + SMT string equality",
    ref="DESIGN.md §5 C13")
 
 CLAIMED["C18"] = dict(
-   text="Bounded model checking of the st command: lists of 1..2 (quick) / 3 (thorough) attribute edits built from every accepted spelling (11 assignment spellings incl. quoted / namespaced names, '*' and '*k' multipliers, parenthesised values; 7 modification spellings for + += - -=) and 4 separators, with the numeric values as symbolic decimal digits, run through the real parser and VM; the callback log (count, order, kind, name, operator, value, multiplier) is compared with the written list as SMT verification conditions over the digit symbols. Modification amounts that are variables or parenthesised expressions over a 64-bit symbol of either sign (VH_C18_modify_expr). Long lists (3..4 quick, 3..6 thorough edits) with the first spelling and separator symbolic choices and the following ones taken in rotation.",
+   text="Bounded model checking of the st command: lists of 1..2 (quick) / 3 (thorough) attribute edits built from every accepted spelling (11 assignment spellings incl. quoted / namespaced names, '*' and '*k' multipliers, parenthesised values; 7 modification spellings for + += - -=) and 4 separators, with the numeric values as symbolic decimal digits, run through the real parser and VM; the callback log (count, order, kind, name, operator, value, multiplier) is compared with the written list as SMT verification conditions over the digit symbols. Modification amounts that are variables or parenthesised expressions over a 64-bit symbol of either sign (VH_C18_modify_expr). Lists whose second assignment has a parenthesised bitwise / dice value after a plain, computed, multiplier or parenthesised first edit (VH_C18_paren). Long lists (3..4 quick, 3..6 thorough edits) with the first spelling and separator symbolic choices and the following ones taken in rotation.",
    note="Values are 1-2 digit integers (dice, floats and general expressions as values are covered only through the parenthesised form); lists longer than 6 edits, and the full spelling product beyond 2 (quick) / 3 (thorough) edits, are outside. 'Nothing else is reinterpreted as an edit' is checked only as 'the number of callbacks equals the number of written edits and the list is consumed entirely'.",
    technique="symbolic execution of parser + VM with symbolic digit bytes + SMT",
    ref="DESIGN.md §5 C18")
 
 CLAIMED["C03"] = dict(
-   text="Bounded model checking over symbolic tails: for 36 valid programs (one per statement / expression form) every 2-byte tail (quick: 34 representative bytes; thorough: all of ASCII) is appended and the input runs through the real parser and VM; on every accepting path Matched+RestInput == input and Matched has no trailing space are SMT verification conditions over the tail bytes, and a second VM evaluates Matched alone: value text, process text and variables must equal those of the full input and Matched must be consumed entirely.",
+   text="Bounded model checking over symbolic tails: for 36 valid programs (one per statement / expression form) every 2-byte tail (quick: 34 representative bytes; thorough: all of ASCII) is appended and the input runs through the real parser and VM; on every accepting path Matched+RestInput == input and Matched has no trailing space are SMT verification conditions over the tail bytes, and a second VM evaluates Matched alone: value text, process text and variables must equal those of the full input and Matched must be consumed entirely. The same oracle on 6 programs x every 4 / 5 byte tail over a bracket alphabet, on 4 programs x 4 separators x 19 broken-off statements, and on 8 programs x 9 tails with CR LF / CR / LF inside and after the program.",
    note="Dice in min mode (no randomness). Tails longer than 2 bytes are outside the claim. Many genuine findings of one root cause are recorded (code emitted by an abandoned PEG alternative survives): identified by failure kind, assertion and the first byte of the text given back; the process-text comparison is recorded as one class.",
    technique="symbolic execution of parser + VM on symbolic tail bytes; relational (two-run) harness",
    ref="DESIGN.md §5 C03")
@@ -85,25 +85,25 @@ CLAIMED["C07"] = dict(
    ref="DESIGN.md §5 C07")
 
 CLAIMED["C10"] = dict(
-   text="Bounded model checking of the real UnmarshalJSON code with symbolic documents: 40 value-document shapes and 9 variable-map shapes (well-typed, ill-typed, missing / null fields, nested nulls, unknown native names and names of built-in type methods such as Array.sum, wrong container kinds, scalars) whose type tags and numbers are 64-bit solver symbols, so every known and unknown tag is a case of the decoder's switch; every successfully decoded value then goes through printing, repr, truthiness, equality, clone, re-serialisation, dict-key use and scripts that index, call, negate, compare, iterate and roll with it; every Go panic site on every feasible path is a verification condition, stack exhaustion counts as a crash.",
+   text="Bounded model checking of the real UnmarshalJSON code with symbolic documents: 40 value-document shapes and 9 variable-map shapes (well-typed, ill-typed, missing / null fields, nested nulls, unknown native names and names of built-in type methods such as Array.sum, wrong container kinds, scalars) whose type tags and numbers are 64-bit solver symbols, so every known and unknown tag is a case of the decoder's switch; every successfully decoded value then goes through printing, repr, truthiness, equality, clone, re-serialisation, dict-key use, comparison with a second decoding of the same document (alone, in arrays, in dicts) and scripts that index, call, negate, compare, iterate and roll with it; every Go panic site on every feasible path is a verification condition, stack exhaustion counts as a crash.",
    note="JSON syntax and struct-tag mapping are the engine's model of encoding/json (real tokenizer, type-driven mapper that calls the code's own UnmarshalJSON methods back); symbolic numbers travel as sentinel literals. Documents outside the 49 shapes (deeper nesting, other field combinations) are outside the claim. Defects found and fixed: unknown native names / tags, null elements, null variables, native-object shells.",
    technique="symbolic execution of the decoder and VM with symbolic type tags + SMT panic-site VCs",
    ref="DESIGN.md §5 C10")
 
 CLAIMED["C09"] = dict(
-   text="Bounded model checking of snapshot/restore through the real ToJSON / UnmarshalJSON code: (a) every value tree of depth <= 2 (containers of 0..2 elements; integers as 64-bit solver symbols, representative finite floats, JSON-hostile strings, null, arrays, dicts, computed values with attributes, functions, native functions, also a container referenced twice) round-trips to a structurally equal value with equal repr, alone and inside a variable map; (b) every reference-cycle shape over <= 2 container nodes and non-finite floats give an error, never a crash (stack exhaustion counts) or a document; (c) a 10-statement program over a symbolic integer (incl. a self-recursive and two mutually recursive functions and a computed value calling them) is snapshotted after every statement prefix, restored into a fresh VM, and 15 follow-up programs (the recursive functions are first called after the restore) give the same value, error status and process text on both VMs.",
+   text="Bounded model checking of snapshot/restore through the real ToJSON / UnmarshalJSON code: (a) every value tree of depth <= 2 (containers of 0..2 elements; integers as 64-bit solver symbols, representative finite floats, JSON-hostile strings, null, arrays, dicts, computed values with attributes, functions, native functions, also a container referenced twice) round-trips to a structurally equal value with equal repr, alone and inside a variable map; (b) every reference-cycle shape over <= 2 container nodes and non-finite floats give an error, never a crash (stack exhaustion counts) or a document; (c) a 10-statement program over a symbolic integer (incl. a self-recursive and two mutually recursive functions, a computed value calling them, and a function and a computed value using the optional dice families) is snapshotted after every statement prefix, restored into a fresh VM, and 18 follow-up programs (the recursive functions are first called after the restore) give the same value, error status and process text on both VMs.",
    note="encoding/json is the engine's model (real tokenizer + type-driven mapper calling the code's own methods; symbolic integers travel as sentinel literals, so integer text formatting/parsing itself is trusted). Floats are concrete representatives. Defect found and fixed: cycles through a dict overflowed the stack.",
    technique="symbolic execution of serialiser, decoder and VM + SMT; relational original-vs-restored harness",
    ref="DESIGN.md §5 C09")
 
 CLAIMED["C11"] = dict(
-   text="Decided as non-interference, not by exploring schedules: 18 API entry-point scenarios (each NewVM + Run + every observer + JSON snapshot on a fresh VM, covering syntax errors in two languages, seeded and unseeded dice, bound methods, functions, computed values, templates, dict methods, builtins, random array methods, st, default-sides dice, run-time errors) are executed symbolically with every memory cell reachable from a package-level variable of dicescript and x/exp/rand marked; any plain (unlocked, non-atomic) store to a marked cell on any explored path is a finding. W = {} implies that VMs sharing no values can only meet on immutable data, hence no data race and isolated results. Each finding is confirmed natively by running the scenario on two goroutines under go test -race. Second harness (sequential non-interference): for every ordered pair of the scenarios on two VMs, everything observable of the finished VM A is unchanged after VM B ran and A's next evaluation (a program, or for three scenarios an expression compiled on demand through RunExpr, two of them ill-formed so that the error text is compared) equals that of a VM that ran alone; sync.Pool is modelled as a LIFO free list so pooled buffers are seen as shared.",
+   text="Decided as non-interference, not by exploring schedules: 21 API entry-point scenarios (each NewVM + Run + every observer + JSON snapshot on a fresh VM, covering syntax errors in two languages, seeded and unseeded dice, bound methods, functions, computed values, templates, dict methods, builtins, random array methods, st, default-sides dice, run-time errors) are executed symbolically with every memory cell reachable from a package-level variable of dicescript and x/exp/rand marked; any plain (unlocked, non-atomic) store to a marked cell on any explored path is a finding. W = {} implies that VMs sharing no values can only meet on immutable data, hence no data race and isolated results. Each finding is confirmed natively by running the scenario on two goroutines under go test -race. Second harness (sequential non-interference): for every ordered pair of the scenarios on two VMs, everything observable of the finished VM A is unchanged after VM B ran and A's next evaluation (a program, or for three scenarios an expression compiled on demand through RunExpr, two of them ill-formed so that the error text is compared) equals that of a VM of the same configuration that did the same evaluations before B existed in the process; sync.Pool is modelled as a LIFO free list so pooled buffers are seen as shared.",
    note="Sufficient, not necessary (a benign shared write would be reported). Interleavings are not explored; atomics and stores under a mutex are treated as synchronised. The generator stub records state writes of PCGSource. Known findings recorded: parseErrorLanguage is process-global (also the root of C19's cross-VM language leak), unseeded VMs share randSource.",
    technique="symbolic execution with shared-memory footprint tracking; race detector only as replay confirmation",
    ref="DESIGN.md §5 C11")
 
 CLAIMED["C17"] = dict(
-   text="Relational bounded model checking: 24 programs (arithmetic, variables, containers, templates, control flow, functions, computed values, every dice family, syntax errors, identifiers that begin like the custom trigger) with integer variables as 64-bit solver symbols are evaluated plain and with inert extension points in all 7 combinations of {never-matching regex and stream dice incl. a parser that reads ahead and declines and two patterns that match only the empty text, identity load/store hooks, identity detail rewriters}; value, error text, process text, rest / matched text and variables must be identical (SMT equality over the symbols). Matching case: a custom syntax registered as regex and as stream parser, in 10 programs: handler (which overwrites its groups argument after reading it) runs once per evaluation of the operand, receives exactly the matched text every time, result used by copy.",
+   text="Relational bounded model checking: 24 programs (arithmetic, variables, containers, templates, control flow, functions, computed values, every dice family, syntax errors, identifiers that begin like the custom trigger) with integer variables as 64-bit solver symbols are evaluated plain and with inert extension points in all 7 combinations of {never-matching regex and stream dice incl. a parser that reads ahead and declines and two patterns that match only the empty text, identity load/store hooks, identity detail rewriters}; value, error text, process text, rest / matched text and variables must be identical (SMT equality over the symbols). Matching case: a custom syntax registered as regex and as stream parser, in 10 programs: handler (which overwrites its groups argument after reading it) runs once per evaluation of the operand, receives exactly the matched text every time, result used by copy. Stream syntax returning explicit groups in storage it reuses, 1-3 operands per program: each handler call receives that operand's text and groups.",
    note="regexp is executed natively on concrete text. Programs are enumerated; symbolic source text with custom dice is not explored. Known finding recorded: custom dice are rejected inside look-ahead-guarded constructs such as array literals.",
    technique="relational symbolic execution (plain vs instrumented VM) + SMT",
    ref="DESIGN.md §5 C17")
